@@ -11,6 +11,7 @@ package eventlog
 
 //@ func Locate
 //@   requires opts != nil
+//@   ghostset locateCalls = locateCalls + 1
 //@   sweep[C07] nil index slice div makeslice typeassert panic
 //@   modifies *
 
